@@ -26,7 +26,11 @@ def _work(args):
     core.use_repo()
     case, obs, clean_case, clean_obs = args
     out, n = [], 0
-    for label, opts, how in (("sync", {}, "render"), ("async", {"enable_async": True}, "render_async")):
+    from jinja2.sandbox import ImmutableSandboxedEnvironment, SandboxedEnvironment
+    # (the sandboxed environments have their own getattr / getitem / call paths: the same rules hold there)
+    for label, opts, how in (("sync", {}, "render"), ("async", {"enable_async": True}, "render_async"),
+                             ("sandbox", {"env_cls": SandboxedEnvironment}, "render"),
+                             ("immutable-sandbox/async", {"env_cls": ImmutableSandboxedEnvironment, "enable_async": True}, "render_async")):
         env, srcs = jrun.make_env(case, **opts)
         real = jrun.real_render(case, 1, env=env, how=how)
         n += 1
